@@ -2,8 +2,31 @@
 import Mpir.Proto
 namespace Mpir.Ops.Extra
 open Mpir
+/-- number of trailing zero bits of x > 0: x xor (x-1) is a run of tz+1 ones -/
+def tzBits (x : Nat) : Nat := (x ^^^ (x - 1)).log2
+
+/-- x >>> k in steps of at most 2^30 bits (the runtime rejects larger single shift counts) -/
+def shrBig (x k : Nat) : Nat := Id.run do
+  let mut x := x
+  let mut k := k
+  for _ in [0:64] do
+    if k > 2 ^ 30 then
+      x := x >>> (2 ^ 30); k := k - 2 ^ 30
+  return x >>> k
+
 /-- value of the view: the low k limbs of |a| with high zero limbs stripped (mpz_roinit_n normalises) -/
 def handle : Handler
+  | "mpz_pow_shape", [.num b, .num e] =>
+      let m := b.natAbs ^ e.toNat            -- Nat.pow (bignum); Int.pow is a structural recursion
+      let neg := b < 0 && e.toNat % 2 == 1
+      if m == 0 then some [.num 0] else
+      let bits := m.log2 + 1
+      let tz := tzBits m
+      let odd := shrBig m tz
+      let ob := bits - tz
+      let lo := odd % 2 ^ 64
+      let hi := if ob > 64 then shrBig odd (ob - 64) else lo
+      some [.num (if neg then -1 else 1), .num bits, .num tz, .num lo, .num hi]
   | "mpz_mul_view", [.num _, .num a, .num k] =>
       let v : Int := Int.ofNat (a.natAbs % (2 ^ (64 * k.toNat)))
       some [.num (a * v)]
